@@ -1,5 +1,5 @@
 // auto-generated: "lalrpop 0.23.1"
-// sha3: cd9b811aa723476ad43d7097bd0a9857290ccbdbea0c35607461b7653881ec4d
+// sha3: c1addd794ddc76d6c7c8a7bc0cfaab251dcad68b0018a10f952cba3da5d482fa
 use crate::rt::*;
 #[allow(unused_extern_crates)]
 extern crate lalrpop_util as __lalrpop_util;
@@ -29,124 +29,46 @@ mod __parse__S {
     }
     const __ACTION: &[i8] = &[
         // State 0
-        4, 0, 0, 3, 0, 0,
+        -3, -3, -3,
         // State 1
-        0, 0, 0, 0, 0, 0,
+        6, 4, 5,
         // State 2
-        5, 0, 0, 0, 0, 0,
+        0, 0, 0,
         // State 3
-        7, 6, 0, 0, 0, 0,
+        -5, -5, -5,
         // State 4
-        0, 0, 0, 0, 8, 0,
+        0, 0, 0,
         // State 5
-        9, 0, 0, 0, 0, 0,
-        // State 6
-        0, 10, 0, 0, 0, 0,
-        // State 7
-        0, 0, 0, 11, 0, 0,
-        // State 8
-        0, 0, 12, 0, 0, 0,
-        // State 9
-        13, 0, 0, 0, 0, 0,
-        // State 10
-        14, 0, 0, 0, 0, 0,
-        // State 11
-        15, 0, 0, 0, 0, 0,
-        // State 12
-        0, 0, 0, 16, 0, 0,
-        // State 13
-        0, 0, 0, 0, 17, 0,
-        // State 14
-        0, 18, 0, 0, 0, 0,
-        // State 15
-        19, 0, 0, 0, 0, 0,
-        // State 16
-        0, 0, 0, 20, 0, 0,
-        // State 17
-        21, 0, 0, 0, 0, 0,
-        // State 18
-        0, 0, 0, 0, 22, 0,
-        // State 19
-        23, 0, 0, 0, 0, 0,
-        // State 20
-        0, 0, 0, 0, 0, 0,
-        // State 21
-        0, 0, 0, 0, 0, 0,
-        // State 22
-        0, 0, 0, 0, 24, 0,
-        // State 23
-        0, 0, 0, 0, 0, 25,
-        // State 24
-        0, 0, 0, 0, 0, 0,
+        -4, -4, -4,
     ];
     fn __action(state: i8, integer: usize) -> i8 {
-        __ACTION[(state as usize) * 6 + integer]
+        __ACTION[(state as usize) * 3 + integer]
     }
     const __EOF_ACTION: &[i8] = &[
         // State 0
         0,
         // State 1
-        -8,
-        // State 2
         0,
+        // State 2
+        -7,
         // State 3
         0,
         // State 4
-        0,
+        -6,
         // State 5
         0,
-        // State 6
-        0,
-        // State 7
-        0,
-        // State 8
-        0,
-        // State 9
-        0,
-        // State 10
-        0,
-        // State 11
-        0,
-        // State 12
-        0,
-        // State 13
-        0,
-        // State 14
-        0,
-        // State 15
-        0,
-        // State 16
-        0,
-        // State 17
-        0,
-        // State 18
-        0,
-        // State 19
-        0,
-        // State 20
-        -5,
-        // State 21
-        -7,
-        // State 22
-        0,
-        // State 23
-        0,
-        // State 24
-        -6,
     ];
     fn __goto(state: i8, nt: usize) -> i8 {
         match nt {
-            4 => 1,
+            2 => 1,
+            3 => 2,
             _ => 0,
         }
     }
     #[allow(clippy::needless_raw_string_hashes)]
     const __TERMINAL: &[&str] = &[
-        r###""id""###,
-        r###"":""###,
-        r###""=""###,
-        r###""[""###,
-        r###""]""###,
+        r###""a""###,
+        r###"",""###,
         r###"";""###,
     ];
     fn __expected_tokens(__state: i8) -> alloc::vec::Vec<alloc::string::String> {
@@ -214,7 +136,7 @@ mod __parse__S {
 
         #[inline]
         fn error_action(&self, state: i8) -> i8 {
-            __action(state, 6 - 1)
+            __action(state, 3 - 1)
         }
 
         #[inline]
@@ -283,9 +205,6 @@ mod __parse__S {
             Tok('a', _, _, _) if true => Some(0),
             Tok('b', _, _, _) if true => Some(1),
             Tok('c', _, _, _) if true => Some(2),
-            Tok('d', _, _, _) if true => Some(3),
-            Tok('e', _, _, _) if true => Some(4),
-            Tok('f', _, _, _) if true => Some(5),
             _ => None,
         }
     }
@@ -297,7 +216,7 @@ mod __parse__S {
     ) -> __Symbol<>
     {
         #[allow(clippy::manual_range_patterns)]match __token_index {
-            0 | 1 | 2 | 3 | 4 | 5 => __Symbol::Variant0(__token),
+            0 | 1 | 2 => __Symbol::Variant0(__token),
             _ => unreachable!(),
         }
     }
@@ -322,35 +241,29 @@ mod __parse__S {
             }
             2 => {
                 __state_machine::SimulatedReduce::Reduce {
-                    states_to_pop: 3,
+                    states_to_pop: 0,
                     nonterminal_produced: 2,
                 }
             }
             3 => {
                 __state_machine::SimulatedReduce::Reduce {
-                    states_to_pop: 3,
-                    nonterminal_produced: 3,
+                    states_to_pop: 2,
+                    nonterminal_produced: 2,
                 }
             }
             4 => {
                 __state_machine::SimulatedReduce::Reduce {
-                    states_to_pop: 7,
-                    nonterminal_produced: 4,
+                    states_to_pop: 2,
+                    nonterminal_produced: 2,
                 }
             }
             5 => {
                 __state_machine::SimulatedReduce::Reduce {
-                    states_to_pop: 10,
-                    nonterminal_produced: 4,
+                    states_to_pop: 2,
+                    nonterminal_produced: 3,
                 }
             }
-            6 => {
-                __state_machine::SimulatedReduce::Reduce {
-                    states_to_pop: 7,
-                    nonterminal_produced: 4,
-                }
-            }
-            7 => __state_machine::SimulatedReduce::Accept,
+            6 => __state_machine::SimulatedReduce::Accept,
             _ => panic!("invalid reduction index {__reduce_index}")
         }
     }
@@ -446,9 +359,6 @@ mod __parse__S {
                 __reduce5(__lookahead_start, __symbols, core::marker::PhantomData::<()>)
             }
             6 => {
-                __reduce6(__lookahead_start, __symbols, core::marker::PhantomData::<()>)
-            }
-            7 => {
                 // __S = S => ActionFn(0);
                 let __sym0 = __pop_Variant2(__symbols);
                 let __start = __sym0.0.clone();
@@ -506,10 +416,10 @@ mod __parse__S {
         _: core::marker::PhantomData<()>,
     ) -> (usize, usize)
     {
-        // @L =  => ActionFn(7);
+        // @L =  => ActionFn(6);
         let __start = __lookahead_start.cloned().or_else(|| __symbols.last().map(|s| s.2.clone())).unwrap_or_default();
         let __end = __start.clone();
-        let __nt = super::__action7::<>(&__start, &__end);
+        let __nt = super::__action6::<>(&__start, &__end);
         __symbols.push((__start, __Symbol::Variant1(__nt), __end));
         (0, 0)
     }
@@ -520,10 +430,10 @@ mod __parse__S {
         _: core::marker::PhantomData<()>,
     ) -> (usize, usize)
     {
-        // @R =  => ActionFn(6);
+        // @R =  => ActionFn(5);
         let __start = __lookahead_start.cloned().or_else(|| __symbols.last().map(|s| s.2.clone())).unwrap_or_default();
         let __end = __start.clone();
-        let __nt = super::__action6::<>(&__start, &__end);
+        let __nt = super::__action5::<>(&__start, &__end);
         __symbols.push((__start, __Symbol::Variant1(__nt), __end));
         (0, 1)
     }
@@ -534,16 +444,12 @@ mod __parse__S {
         _: core::marker::PhantomData<()>,
     ) -> (usize, usize)
     {
-        // K = "[", "id", "]" => ActionFn(13);
-        assert!(__symbols.len() >= 3);
-        let __sym2 = __pop_Variant0(__symbols);
-        let __sym1 = __pop_Variant0(__symbols);
-        let __sym0 = __pop_Variant0(__symbols);
-        let __start = __sym0.0.clone();
-        let __end = __sym2.2.clone();
-        let __nt = super::__action13::<>(__sym0, __sym1, __sym2);
+        // L =  => ActionFn(11);
+        let __start = __lookahead_start.cloned().or_else(|| __symbols.last().map(|s| s.2.clone())).unwrap_or_default();
+        let __end = __start.clone();
+        let __nt = super::__action11::<>(&__start, &__end);
         __symbols.push((__start, __Symbol::Variant2(__nt), __end));
-        (3, 2)
+        (0, 2)
     }
     fn __reduce3<
     >(
@@ -552,16 +458,15 @@ mod __parse__S {
         _: core::marker::PhantomData<()>,
     ) -> (usize, usize)
     {
-        // P = "id", ":", "id" => ActionFn(14);
-        assert!(__symbols.len() >= 3);
-        let __sym2 = __pop_Variant0(__symbols);
+        // L = L, "a" => ActionFn(12);
+        assert!(__symbols.len() >= 2);
         let __sym1 = __pop_Variant0(__symbols);
-        let __sym0 = __pop_Variant0(__symbols);
+        let __sym0 = __pop_Variant2(__symbols);
         let __start = __sym0.0.clone();
-        let __end = __sym2.2.clone();
-        let __nt = super::__action14::<>(__sym0, __sym1, __sym2);
+        let __end = __sym1.2.clone();
+        let __nt = super::__action12::<>(__sym0, __sym1);
         __symbols.push((__start, __Symbol::Variant2(__nt), __end));
-        (3, 3)
+        (2, 2)
     }
     fn __reduce4<
     >(
@@ -570,20 +475,15 @@ mod __parse__S {
         _: core::marker::PhantomData<()>,
     ) -> (usize, usize)
     {
-        // S = "id", ":", "id", "=", "id", ":", "id" => ActionFn(20);
-        assert!(__symbols.len() >= 7);
-        let __sym6 = __pop_Variant0(__symbols);
-        let __sym5 = __pop_Variant0(__symbols);
-        let __sym4 = __pop_Variant0(__symbols);
-        let __sym3 = __pop_Variant0(__symbols);
-        let __sym2 = __pop_Variant0(__symbols);
+        // L = L, "," => ActionFn(13);
+        assert!(__symbols.len() >= 2);
         let __sym1 = __pop_Variant0(__symbols);
-        let __sym0 = __pop_Variant0(__symbols);
+        let __sym0 = __pop_Variant2(__symbols);
         let __start = __sym0.0.clone();
-        let __end = __sym6.2.clone();
-        let __nt = super::__action20::<>(__sym0, __sym1, __sym2, __sym3, __sym4, __sym5, __sym6);
+        let __end = __sym1.2.clone();
+        let __nt = super::__action13::<>(__sym0, __sym1);
         __symbols.push((__start, __Symbol::Variant2(__nt), __end));
-        (7, 4)
+        (2, 2)
     }
     fn __reduce5<
     >(
@@ -592,45 +492,15 @@ mod __parse__S {
         _: core::marker::PhantomData<()>,
     ) -> (usize, usize)
     {
-        // S = "[", "id", "]", "[", "id", "]", "[", "id", "]", ";" => ActionFn(18);
-        assert!(__symbols.len() >= 10);
-        let __sym9 = __pop_Variant0(__symbols);
-        let __sym8 = __pop_Variant0(__symbols);
-        let __sym7 = __pop_Variant0(__symbols);
-        let __sym6 = __pop_Variant0(__symbols);
-        let __sym5 = __pop_Variant0(__symbols);
-        let __sym4 = __pop_Variant0(__symbols);
-        let __sym3 = __pop_Variant0(__symbols);
-        let __sym2 = __pop_Variant0(__symbols);
+        // S = L, ";" => ActionFn(14);
+        assert!(__symbols.len() >= 2);
         let __sym1 = __pop_Variant0(__symbols);
-        let __sym0 = __pop_Variant0(__symbols);
+        let __sym0 = __pop_Variant2(__symbols);
         let __start = __sym0.0.clone();
-        let __end = __sym9.2.clone();
-        let __nt = super::__action18::<>(__sym0, __sym1, __sym2, __sym3, __sym4, __sym5, __sym6, __sym7, __sym8, __sym9);
+        let __end = __sym1.2.clone();
+        let __nt = super::__action14::<>(__sym0, __sym1);
         __symbols.push((__start, __Symbol::Variant2(__nt), __end));
-        (10, 4)
-    }
-    fn __reduce6<
-    >(
-        __lookahead_start: Option<&i64>,
-        __symbols: &mut alloc::vec::Vec<(i64,__Symbol<>,i64)>,
-        _: core::marker::PhantomData<()>,
-    ) -> (usize, usize)
-    {
-        // S = "id", "id", ":", "id", "[", "id", "]" => ActionFn(21);
-        assert!(__symbols.len() >= 7);
-        let __sym6 = __pop_Variant0(__symbols);
-        let __sym5 = __pop_Variant0(__symbols);
-        let __sym4 = __pop_Variant0(__symbols);
-        let __sym3 = __pop_Variant0(__symbols);
-        let __sym2 = __pop_Variant0(__symbols);
-        let __sym1 = __pop_Variant0(__symbols);
-        let __sym0 = __pop_Variant0(__symbols);
-        let __start = __sym0.0.clone();
-        let __end = __sym6.2.clone();
-        let __nt = super::__action21::<>(__sym0, __sym1, __sym2, __sym3, __sym4, __sym5, __sym6);
-        __symbols.push((__start, __Symbol::Variant2(__nt), __end));
-        (7, 4)
+        (2, 3)
     }
 }
 #[allow(unused_imports)]
@@ -651,68 +521,51 @@ fn __action1<
     (_, l, _): (i64, i64, i64),
     (_, c0, _): (i64, Tree, i64),
     (_, c1, _): (i64, Tok, i64),
-    (_, c2, _): (i64, Tree, i64),
+    (_, pL2, _): (i64, i64, i64),
     (_, r, _): (i64, i64, i64),
 ) -> Tree
 {
-    node("S#0", l, r, vec![Tree::from(c0), Tree::from(c1), Tree::from(c2)])
+    { probe("S#0", 2, 'L', pL2); node("S#0", l, r, vec![Tree::from(c0), Tree::from(c1)]) }
 }
 
 #[allow(clippy::too_many_arguments, clippy::needless_lifetimes, clippy::just_underscores_and_digits, clippy::extra_unused_type_parameters)]
 fn __action2<
 >(
     (_, l, _): (i64, i64, i64),
-    (_, c0, _): (i64, Tree, i64),
-    (_, c1, _): (i64, Tree, i64),
-    (_, c2, _): (i64, Tree, i64),
-    (_, c3, _): (i64, Tok, i64),
+    (_, pL0, _): (i64, i64, i64),
     (_, r, _): (i64, i64, i64),
 ) -> Tree
 {
-    node("S#1", l, r, vec![Tree::from(c0), Tree::from(c1), Tree::from(c2), Tree::from(c3)])
+    { probe("L#0", 0, 'L', pL0); node("L#0", l, r, vec![]) }
 }
 
 #[allow(clippy::too_many_arguments, clippy::needless_lifetimes, clippy::just_underscores_and_digits, clippy::extra_unused_type_parameters)]
 fn __action3<
 >(
     (_, l, _): (i64, i64, i64),
-    (_, c0, _): (i64, Tok, i64),
-    (_, c1, _): (i64, Tree, i64),
-    (_, c2, _): (i64, Tree, i64),
+    (_, c0, _): (i64, Tree, i64),
+    (_, c1, _): (i64, Tok, i64),
     (_, r, _): (i64, i64, i64),
 ) -> Tree
 {
-    node("S#2", l, r, vec![Tree::from(c0), Tree::from(c1), Tree::from(c2)])
+    node("L#1", l, r, vec![Tree::from(c0), Tree::from(c1)])
 }
 
 #[allow(clippy::too_many_arguments, clippy::needless_lifetimes, clippy::just_underscores_and_digits, clippy::extra_unused_type_parameters)]
 fn __action4<
 >(
     (_, l, _): (i64, i64, i64),
-    (_, c0, _): (i64, Tok, i64),
+    (_, c0, _): (i64, Tree, i64),
+    (_, pL1, _): (i64, i64, i64),
     (_, c1, _): (i64, Tok, i64),
-    (_, c2, _): (i64, Tok, i64),
     (_, r, _): (i64, i64, i64),
 ) -> Tree
 {
-    node("P#0", l, r, vec![Tree::from(c0), Tree::from(c1), Tree::from(c2)])
-}
-
-#[allow(clippy::too_many_arguments, clippy::needless_lifetimes, clippy::just_underscores_and_digits, clippy::extra_unused_type_parameters)]
-fn __action5<
->(
-    (_, l, _): (i64, i64, i64),
-    (_, c0, _): (i64, Tok, i64),
-    (_, c1, _): (i64, Tok, i64),
-    (_, c2, _): (i64, Tok, i64),
-    (_, r, _): (i64, i64, i64),
-) -> Tree
-{
-    node("K#0", l, r, vec![Tree::from(c0), Tree::from(c1), Tree::from(c2)])
+    { probe("L#2", 1, 'L', pL1); node("L#2", l, r, vec![Tree::from(c0), Tree::from(c1)]) }
 }
 
 #[allow(clippy::needless_lifetimes, clippy::clone_on_copy)]
-fn __action6<
+fn __action5<
 >(
     __lookbehind: &i64,
     __lookahead: &i64,
@@ -722,7 +575,7 @@ fn __action6<
 }
 
 #[allow(clippy::needless_lifetimes, clippy::clone_on_copy)]
-fn __action7<
+fn __action6<
 >(
     __lookbehind: &i64,
     __lookahead: &i64,
@@ -733,123 +586,44 @@ fn __action7<
 
 #[allow(clippy::too_many_arguments, clippy::needless_lifetimes,
     clippy::just_underscores_and_digits, clippy::clone_on_copy, clippy::unit_arg)]
-fn __action8<
+fn __action7<
 >(
-    __0: (i64, Tok, i64),
-    __1: (i64, Tok, i64),
-    __2: (i64, Tok, i64),
-    __3: (i64, i64, i64),
+    __0: (i64, i64, i64),
 ) -> Tree
 {
     let __start0 = __0.0.clone();
     let __end0 = __0.0.clone();
-    let __temp0 = __action7(
+    let __start1 = __0.0.clone();
+    let __end1 = __0.0.clone();
+    let __temp0 = __action6(
         &__start0,
         &__end0,
     );
     let __temp0 = (__start0, __temp0, __end0);
-    __action5(
-        __temp0,
-        __0,
-        __1,
-        __2,
-        __3,
-    )
-}
-
-#[allow(clippy::too_many_arguments, clippy::needless_lifetimes,
-    clippy::just_underscores_and_digits, clippy::clone_on_copy, clippy::unit_arg)]
-fn __action9<
->(
-    __0: (i64, Tok, i64),
-    __1: (i64, Tok, i64),
-    __2: (i64, Tok, i64),
-    __3: (i64, i64, i64),
-) -> Tree
-{
-    let __start0 = __0.0.clone();
-    let __end0 = __0.0.clone();
-    let __temp0 = __action7(
-        &__start0,
-        &__end0,
+    let __temp1 = __action6(
+        &__start1,
+        &__end1,
     );
-    let __temp0 = (__start0, __temp0, __end0);
-    __action4(
-        __temp0,
-        __0,
-        __1,
-        __2,
-        __3,
-    )
-}
-
-#[allow(clippy::too_many_arguments, clippy::needless_lifetimes,
-    clippy::just_underscores_and_digits, clippy::clone_on_copy, clippy::unit_arg)]
-fn __action10<
->(
-    __0: (i64, Tree, i64),
-    __1: (i64, Tok, i64),
-    __2: (i64, Tree, i64),
-    __3: (i64, i64, i64),
-) -> Tree
-{
-    let __start0 = __0.0.clone();
-    let __end0 = __0.0.clone();
-    let __temp0 = __action7(
-        &__start0,
-        &__end0,
-    );
-    let __temp0 = (__start0, __temp0, __end0);
-    __action1(
-        __temp0,
-        __0,
-        __1,
-        __2,
-        __3,
-    )
-}
-
-#[allow(clippy::too_many_arguments, clippy::needless_lifetimes,
-    clippy::just_underscores_and_digits, clippy::clone_on_copy, clippy::unit_arg)]
-fn __action11<
->(
-    __0: (i64, Tree, i64),
-    __1: (i64, Tree, i64),
-    __2: (i64, Tree, i64),
-    __3: (i64, Tok, i64),
-    __4: (i64, i64, i64),
-) -> Tree
-{
-    let __start0 = __0.0.clone();
-    let __end0 = __0.0.clone();
-    let __temp0 = __action7(
-        &__start0,
-        &__end0,
-    );
-    let __temp0 = (__start0, __temp0, __end0);
+    let __temp1 = (__start1, __temp1, __end1);
     __action2(
         __temp0,
+        __temp1,
         __0,
-        __1,
-        __2,
-        __3,
-        __4,
     )
 }
 
 #[allow(clippy::too_many_arguments, clippy::needless_lifetimes,
     clippy::just_underscores_and_digits, clippy::clone_on_copy, clippy::unit_arg)]
-fn __action12<
+fn __action8<
 >(
-    __0: (i64, Tok, i64),
-    __1: (i64, Tree, i64),
-    __2: (i64, Tree, i64),
-    __3: (i64, i64, i64),
+    __0: (i64, Tree, i64),
+    __1: (i64, Tok, i64),
+    __2: (i64, i64, i64),
 ) -> Tree
 {
     let __start0 = __0.0.clone();
     let __end0 = __0.0.clone();
-    let __temp0 = __action7(
+    let __temp0 = __action6(
         &__start0,
         &__end0,
     );
@@ -859,22 +633,104 @@ fn __action12<
         __0,
         __1,
         __2,
-        __3,
     )
 }
 
 #[allow(clippy::too_many_arguments, clippy::needless_lifetimes,
     clippy::just_underscores_and_digits, clippy::clone_on_copy, clippy::unit_arg)]
-fn __action13<
+fn __action9<
 >(
-    __0: (i64, Tok, i64),
+    __0: (i64, Tree, i64),
     __1: (i64, Tok, i64),
-    __2: (i64, Tok, i64),
+    __2: (i64, i64, i64),
 ) -> Tree
 {
-    let __start0 = __2.2.clone();
-    let __end0 = __2.2.clone();
+    let __start0 = __0.0.clone();
+    let __end0 = __0.0.clone();
+    let __start1 = __0.2.clone();
+    let __end1 = __1.0.clone();
     let __temp0 = __action6(
+        &__start0,
+        &__end0,
+    );
+    let __temp0 = (__start0, __temp0, __end0);
+    let __temp1 = __action6(
+        &__start1,
+        &__end1,
+    );
+    let __temp1 = (__start1, __temp1, __end1);
+    __action4(
+        __temp0,
+        __0,
+        __temp1,
+        __1,
+        __2,
+    )
+}
+
+#[allow(clippy::too_many_arguments, clippy::needless_lifetimes,
+    clippy::just_underscores_and_digits, clippy::clone_on_copy, clippy::unit_arg)]
+fn __action10<
+>(
+    __0: (i64, Tree, i64),
+    __1: (i64, Tok, i64),
+    __2: (i64, i64, i64),
+) -> Tree
+{
+    let __start0 = __0.0.clone();
+    let __end0 = __0.0.clone();
+    let __start1 = __1.2.clone();
+    let __end1 = __2.0.clone();
+    let __temp0 = __action6(
+        &__start0,
+        &__end0,
+    );
+    let __temp0 = (__start0, __temp0, __end0);
+    let __temp1 = __action6(
+        &__start1,
+        &__end1,
+    );
+    let __temp1 = (__start1, __temp1, __end1);
+    __action1(
+        __temp0,
+        __0,
+        __1,
+        __temp1,
+        __2,
+    )
+}
+
+#[allow(clippy::too_many_arguments, clippy::needless_lifetimes,
+    clippy::just_underscores_and_digits, clippy::clone_on_copy, clippy::unit_arg)]
+fn __action11<
+>(
+    __lookbehind: &i64,
+    __lookahead: &i64,
+) -> Tree
+{
+    let __start0 = __lookbehind.clone();
+    let __end0 = __lookahead.clone();
+    let __temp0 = __action5(
+        &__start0,
+        &__end0,
+    );
+    let __temp0 = (__start0, __temp0, __end0);
+    __action7(
+        __temp0,
+    )
+}
+
+#[allow(clippy::too_many_arguments, clippy::needless_lifetimes,
+    clippy::just_underscores_and_digits, clippy::clone_on_copy, clippy::unit_arg)]
+fn __action12<
+>(
+    __0: (i64, Tree, i64),
+    __1: (i64, Tok, i64),
+) -> Tree
+{
+    let __start0 = __1.2.clone();
+    let __end0 = __1.2.clone();
+    let __temp0 = __action5(
         &__start0,
         &__end0,
     );
@@ -882,7 +738,28 @@ fn __action13<
     __action8(
         __0,
         __1,
-        __2,
+        __temp0,
+    )
+}
+
+#[allow(clippy::too_many_arguments, clippy::needless_lifetimes,
+    clippy::just_underscores_and_digits, clippy::clone_on_copy, clippy::unit_arg)]
+fn __action13<
+>(
+    __0: (i64, Tree, i64),
+    __1: (i64, Tok, i64),
+) -> Tree
+{
+    let __start0 = __1.2.clone();
+    let __end0 = __1.2.clone();
+    let __temp0 = __action5(
+        &__start0,
+        &__end0,
+    );
+    let __temp0 = (__start0, __temp0, __end0);
+    __action9(
+        __0,
+        __1,
         __temp0,
     )
 }
@@ -891,38 +768,13 @@ fn __action13<
     clippy::just_underscores_and_digits, clippy::clone_on_copy, clippy::unit_arg)]
 fn __action14<
 >(
-    __0: (i64, Tok, i64),
-    __1: (i64, Tok, i64),
-    __2: (i64, Tok, i64),
-) -> Tree
-{
-    let __start0 = __2.2.clone();
-    let __end0 = __2.2.clone();
-    let __temp0 = __action6(
-        &__start0,
-        &__end0,
-    );
-    let __temp0 = (__start0, __temp0, __end0);
-    __action9(
-        __0,
-        __1,
-        __2,
-        __temp0,
-    )
-}
-
-#[allow(clippy::too_many_arguments, clippy::needless_lifetimes,
-    clippy::just_underscores_and_digits, clippy::clone_on_copy, clippy::unit_arg)]
-fn __action15<
->(
     __0: (i64, Tree, i64),
     __1: (i64, Tok, i64),
-    __2: (i64, Tree, i64),
 ) -> Tree
 {
-    let __start0 = __2.2.clone();
-    let __end0 = __2.2.clone();
-    let __temp0 = __action6(
+    let __start0 = __1.2.clone();
+    let __end0 = __1.2.clone();
+    let __temp0 = __action5(
         &__start0,
         &__end0,
     );
@@ -930,198 +782,7 @@ fn __action15<
     __action10(
         __0,
         __1,
-        __2,
         __temp0,
-    )
-}
-
-#[allow(clippy::too_many_arguments, clippy::needless_lifetimes,
-    clippy::just_underscores_and_digits, clippy::clone_on_copy, clippy::unit_arg)]
-fn __action16<
->(
-    __0: (i64, Tree, i64),
-    __1: (i64, Tree, i64),
-    __2: (i64, Tree, i64),
-    __3: (i64, Tok, i64),
-) -> Tree
-{
-    let __start0 = __3.2.clone();
-    let __end0 = __3.2.clone();
-    let __temp0 = __action6(
-        &__start0,
-        &__end0,
-    );
-    let __temp0 = (__start0, __temp0, __end0);
-    __action11(
-        __0,
-        __1,
-        __2,
-        __3,
-        __temp0,
-    )
-}
-
-#[allow(clippy::too_many_arguments, clippy::needless_lifetimes,
-    clippy::just_underscores_and_digits, clippy::clone_on_copy, clippy::unit_arg)]
-fn __action17<
->(
-    __0: (i64, Tok, i64),
-    __1: (i64, Tree, i64),
-    __2: (i64, Tree, i64),
-) -> Tree
-{
-    let __start0 = __2.2.clone();
-    let __end0 = __2.2.clone();
-    let __temp0 = __action6(
-        &__start0,
-        &__end0,
-    );
-    let __temp0 = (__start0, __temp0, __end0);
-    __action12(
-        __0,
-        __1,
-        __2,
-        __temp0,
-    )
-}
-
-#[allow(clippy::too_many_arguments, clippy::needless_lifetimes,
-    clippy::just_underscores_and_digits, clippy::clone_on_copy, clippy::unit_arg)]
-fn __action18<
->(
-    __0: (i64, Tok, i64),
-    __1: (i64, Tok, i64),
-    __2: (i64, Tok, i64),
-    __3: (i64, Tok, i64),
-    __4: (i64, Tok, i64),
-    __5: (i64, Tok, i64),
-    __6: (i64, Tok, i64),
-    __7: (i64, Tok, i64),
-    __8: (i64, Tok, i64),
-    __9: (i64, Tok, i64),
-) -> Tree
-{
-    let __start0 = __0.0.clone();
-    let __end0 = __2.2.clone();
-    let __start1 = __3.0.clone();
-    let __end1 = __5.2.clone();
-    let __start2 = __6.0.clone();
-    let __end2 = __8.2.clone();
-    let __temp0 = __action13(
-        __0,
-        __1,
-        __2,
-    );
-    let __temp0 = (__start0, __temp0, __end0);
-    let __temp1 = __action13(
-        __3,
-        __4,
-        __5,
-    );
-    let __temp1 = (__start1, __temp1, __end1);
-    let __temp2 = __action13(
-        __6,
-        __7,
-        __8,
-    );
-    let __temp2 = (__start2, __temp2, __end2);
-    __action16(
-        __temp0,
-        __temp1,
-        __temp2,
-        __9,
-    )
-}
-
-#[allow(clippy::too_many_arguments, clippy::needless_lifetimes,
-    clippy::just_underscores_and_digits, clippy::clone_on_copy, clippy::unit_arg)]
-fn __action19<
->(
-    __0: (i64, Tok, i64),
-    __1: (i64, Tree, i64),
-    __2: (i64, Tok, i64),
-    __3: (i64, Tok, i64),
-    __4: (i64, Tok, i64),
-) -> Tree
-{
-    let __start0 = __2.0.clone();
-    let __end0 = __4.2.clone();
-    let __temp0 = __action13(
-        __2,
-        __3,
-        __4,
-    );
-    let __temp0 = (__start0, __temp0, __end0);
-    __action17(
-        __0,
-        __1,
-        __temp0,
-    )
-}
-
-#[allow(clippy::too_many_arguments, clippy::needless_lifetimes,
-    clippy::just_underscores_and_digits, clippy::clone_on_copy, clippy::unit_arg)]
-fn __action20<
->(
-    __0: (i64, Tok, i64),
-    __1: (i64, Tok, i64),
-    __2: (i64, Tok, i64),
-    __3: (i64, Tok, i64),
-    __4: (i64, Tok, i64),
-    __5: (i64, Tok, i64),
-    __6: (i64, Tok, i64),
-) -> Tree
-{
-    let __start0 = __0.0.clone();
-    let __end0 = __2.2.clone();
-    let __start1 = __4.0.clone();
-    let __end1 = __6.2.clone();
-    let __temp0 = __action14(
-        __0,
-        __1,
-        __2,
-    );
-    let __temp0 = (__start0, __temp0, __end0);
-    let __temp1 = __action14(
-        __4,
-        __5,
-        __6,
-    );
-    let __temp1 = (__start1, __temp1, __end1);
-    __action15(
-        __temp0,
-        __3,
-        __temp1,
-    )
-}
-
-#[allow(clippy::too_many_arguments, clippy::needless_lifetimes,
-    clippy::just_underscores_and_digits, clippy::clone_on_copy, clippy::unit_arg)]
-fn __action21<
->(
-    __0: (i64, Tok, i64),
-    __1: (i64, Tok, i64),
-    __2: (i64, Tok, i64),
-    __3: (i64, Tok, i64),
-    __4: (i64, Tok, i64),
-    __5: (i64, Tok, i64),
-    __6: (i64, Tok, i64),
-) -> Tree
-{
-    let __start0 = __1.0.clone();
-    let __end0 = __3.2.clone();
-    let __temp0 = __action14(
-        __1,
-        __2,
-        __3,
-    );
-    let __temp0 = (__start0, __temp0, __end0);
-    __action19(
-        __0,
-        __temp0,
-        __4,
-        __5,
-        __6,
     )
 }
 
